@@ -47,7 +47,7 @@ def one(d, tests):
 def main():
     args = [a for a in sys.argv[1:] if not a.startswith("--")]
     tests = "--tests" in sys.argv
-    with ThreadPoolExecutor(max_workers=8) as ex:
+    with ThreadPoolExecutor(max_workers=16) as ex:
         results = list(ex.map(lambda d: one(d, tests), args))
     bad = 0
     for r in results:
